@@ -396,7 +396,7 @@ def gen_cases(ctx: Ctx, rig: R.Rig, seeds: Seeds) -> tuple[list[Iterable[Case]],
     ALL = list(R.ENCODERS)
 
     def some() -> list[str]:
-        return ['json6', rng.choice(['json4', 'text6', 'text4'])]
+        return ['json6', rng.choice(['json4', 'text6', 'text4', 'json6c'])]
 
     def wrap_ls(tlvs: bytes) -> bytes:
         return R.update_body(R.BASE_ATTRS + R.attr(0x80, 29, tlvs), R.NLRI24)
@@ -990,9 +990,9 @@ class Runner:
                             paths = R.dup_paths(R.load_pairs(rec.decode('ascii')))
                         except ValueError:
                             paths = []
-                        path = R.attribute_level(canon_path(paths[0])) if paths else ['?', bytes.fromhex(a.split()[1]).decode('ascii', 'replace')]
-                        if R.IS_JSON[o.enc]:
-                            self.fail('json-line', {'dup': path}, case, f'{o.enc} {event}: key {"/".join(path)!r} occurs twice in one object')
+                        full = paths[0] if paths else ['?', bytes.fromhex(a.split()[1]).decode('ascii', 'replace')]
+                        path = R.attribute_level(canon_path(full))
+                        self.fail('json-line', {'dup': path}, case, f'{o.enc} {event}: key {"/".join(full)!r} occurs twice in one object (Lean parser: {a})')
                         continue
                     if a.startswith('bad'):
                         pos = int(a.split()[1])
@@ -1023,6 +1023,7 @@ class Runner:
                     if 'skel' in r and 'tskel' in r and case.shape != case.twin_shape:
                         ctx.count('twin-decoded-differently')
                     elif 'skel' in r and 'tskel' in r:
+                        ctx.count('twin-skeleton-compared')
                         if r['skel'] != r['tskel']:
                             hs = bytes.fromhex(r['skel'].split()[1]).decode() if r['skel'].startswith('ok ') else r['skel']
                             ts = bytes.fromhex(r['tskel'].split()[1]).decode() if r['tskel'].startswith('ok ') else r['tskel']
